@@ -37,6 +37,12 @@ func initProps() {
 				}
 				return 16
 			}},
+			{name: "ttlenum", params: "depth=4,shards=16", thorParams: "depth=6,shards=64", runs: func(tier string) int64 {
+				if tier == "thorough" {
+					return 64
+				}
+				return 16
+			}},
 			{name: "seqenum", params: "depth=3,shards=16", thorParams: "depth=5,shards=64", runs: func(tier string) int64 {
 				if tier == "thorough" {
 					return 64
